@@ -34,6 +34,14 @@ inline std::string caseVariant(const std::string& name, uint64_t k) {
 	return s;
 }
 
+// A size on or next to a boundary that buffers, chunks and length fields tend to have: 2^k - 1, 2^k, 2^k + 1 (k = 8..maxLog2)
+// or a small multiple of 4096 / 8192 (+-1).
+inline uint64_t boundarySize(Rng& r, unsigned maxLog2 = 17) {
+	if (r.chance(1, 3)) { uint64_t unit = r.chance(1, 2) ? 4096 : 8192; uint64_t v = unit * r.range(1, (1ull << maxLog2) / unit); return v + r.below(3) - 1; }
+	uint64_t p2 = 1ull << r.range(8, maxLog2);
+	return p2 + r.below(3) - 1;
+}
+
 // Common environment swarm for file-based families.
 inline void swarmEnv(Plan& p, Rng& r, bool readFaults, bool writeFaults, bool bigFiles = false) {
 	p.setenv("heap", r.below(256));
